@@ -358,6 +358,13 @@ def _construct(kind, style, params, ns) -> str:
         fields = "".join(f"    {n}: {h}" + (f" = DEF_{n}" if n in defaulted else "") + "\n" for n, h, _ in params) or "    pass\n"
     if kind == "nt":
         src = f"@dltype.dltyped_namedtuple()\nclass C(typing.NamedTuple):\n{fields}"
+    elif kind == "dc" and style in ("inherit", "inherit2") and len(params) >= 2 and not defaulted:
+        # the field list presented through inheritance: the first fields on a base dataclass (plain, or decorated as well), the
+        # rest on the decorated subclass
+        k = len(params) // 2
+        flines = [f"    {n}: {h}\n" for n, h, _ in params]
+        base_dec = "@dltype.dltyped_dataclass()\n" if style == "inherit2" else ""
+        src = f"{base_dec}@dataclasses.dataclass\nclass B:\n{''.join(flines[:k])}@dltype.dltyped_dataclass()\n@dataclasses.dataclass\nclass C(B):\n{''.join(flines[k:])}"
     elif kind == "dc":
         src = f"@dltype.dltyped_dataclass()\n@dataclasses.dataclass\nclass C:\n{fields}"
     else:
